@@ -474,6 +474,10 @@ pub fn scenario(seed: u64, upper_case: bool) -> Made {
         if rng.chance(1, 8) {
             inst = format!("dotted.name {s}");
         }
+        if upper_case && rng.chance(1, 4) {
+            // a capital letter outside ASCII, as users type them
+            inst = format!("\u{c9}cole {s} \u{d6}st");
+        }
         let host = if shared_host { "box.local.".to_string() } else { format!("box{s}.local.") };
         let host = if upper_case && rng.chance(1, 3) { host.replace("box", "Box") } else { host };
         let mut addrs: Vec<IpAddr> = Vec::new();
